@@ -556,6 +556,7 @@ func init() {
 // ---------------------------------------------------------------------------------------------------------------------
 
 func genC17(g *G) {
+	gens["C17Api"](g)
 	genC17Pack(g)
 	genC17Relay(g)
 }
